@@ -123,6 +123,9 @@ func walk(v reflect.Value, path string, d dump, depth int) {
 			if e.Kind() == reflect.Int64 && e.Int() == 0 {
 				continue
 			}
+			if e.Kind() == reflect.Map && e.Len() == 0 {
+				continue // an empty inner map (left behind by delete) is no entry
+			}
 			n++
 			walk(e, path+"["+keyString(k)+"]", d, depth+1)
 		}
